@@ -439,10 +439,31 @@ func c36watchdog(r *vk.Run, t *testing.T) {
 				n, code := int(atomic.LoadInt32(&c36wdN)), atomic.LoadUint64(&c36wdCode)
 				o = c36ops(n)[opi]
 				id = "direct|" + strconv.Itoa(n) + "|" + c36histStr(n, append(c36witness(nil, n, code), o))
+			} else if m == 3 || m == 4 {
+				c := c36wdDeep.Load().(*c36deepCtx)
+				code := atomic.LoadUint64(&c36wdCode)
+				var ops []c36op
+				if m == 3 {
+					ops = c.ops[:code>>32]
+				} else {
+					ops = []c36op{c.ops[(code>>32)-1]}
+					if b := code & 0xffffffff; b > 0 {
+						ops = append(ops, c.ops[b-1])
+					}
+				}
+				o = ops[len(ops)-1]
+				id = c36deepID(c.shape, c.x, c.d, c.N, ops)
 			} else {
 				h := c36wdHist.Load().(*c36histCtx)
 				o = h.hist[opi]
-				id = h.mode + "|" + strconv.Itoa(h.n) + "|" + c36histStr(h.n, h.hist[:opi+1])
+				switch {
+				case strings.HasPrefix(h.mode, "deepframes|"):
+					id = h.mode + "|" + h.hist[len(h.hist)-1].str(h.n)
+				case strings.HasPrefix(h.mode, "deep|"):
+					id = h.mode + "|" // hang while building the tree
+				default:
+					id = h.mode + "|" + strconv.Itoa(h.n) + "|" + c36histStr(h.n, h.hist[:opi+1])
+				}
 			}
 			sig := "nonterminating:" + c36className(o, int(atomic.LoadInt32(&c36wdCls)))
 			r.Violation(sig, id, "the operation did not return within 20 s (every other one takes < 1 ms)")
@@ -1101,6 +1122,459 @@ func c36framesPart(r *vk.Run, t *testing.T, n int) {
 	r.Add("sum_frames_histories", evals)
 }
 
+// ---- Part D: deep and wide trees (structured family, not BFS) -------------------------------
+// Chains, stars, chains with a closed middle segment and brooms (chain ending in a star) of d
+// streams, d around every power of two / round number up to and beyond the advertised
+// SETTINGS_MAX_CONCURRENT_STREAMS (200), built by prioritised HEADERS (plain and exclusive), then
+// every PRIORITY (stream i depends on j, i and j in {top, middle, bottom} +-1, 0, unknown id; with
+// and without exclusive) and every HEADERS opening one more stream under those, and every pair of
+// two such operations in sequence; thorough: additionally every (i,j) of the tree. Same seams,
+// same oracle. Any constant in the code larger than the handful of streams of Parts A-C shows here.
+
+var c36shapes = []string{"chain", "star", "chain-closed-middle", "broom"}
+
+// c36shape returns the building history over n streams; the world has N = n+1 stream slots (slot
+// n is the not yet opened "one more stream").
+func c36shape(shape string, d int, x bool) (hist []c36op, n int) {
+	h := func(s, depIdx int) { // depIdx -1 = stream 0
+		hist = append(hist, c36op{kind: 'H', s: s, prio: true, dep: depIdx + 1, excl: x})
+	}
+	switch shape {
+	case "chain", "chain-closed-middle":
+		n = d
+		for k := 0; k < d; k++ {
+			h(k, k-1)
+		}
+		if shape == "chain-closed-middle" {
+			for k := d / 3; k < 2*d/3; k++ {
+				hist = append(hist, c36op{kind: 'R', s: k})
+			}
+		}
+	case "star":
+		n = d + 1
+		h(0, -1)
+		for k := 1; k <= d; k++ {
+			h(k, 0)
+		}
+	case "broom":
+		n = d
+		c := (d + 1) / 2
+		for k := 0; k < c; k++ {
+			h(k, k-1)
+		}
+		for k := c; k < d; k++ {
+			h(k, c-1)
+		}
+	}
+	return hist, n
+}
+
+func c36positions(n int) []int {
+	var out []int
+	seen := map[int]bool{}
+	for _, p := range []int{0, 1, 2, n/2 - 1, n / 2, n/2 + 1, n - 3, n - 2, n - 1} {
+		if p >= 0 && p < n && !seen[p] {
+			seen[p] = true
+			out = append(out, p)
+		}
+	}
+	return out
+}
+
+// c36deepOps: the operations tried on a built tree of n streams (world size N = n+1).
+func c36deepOps(n int) []c36op {
+	N := n + 1
+	pos := c36positions(n)
+	deps := []int{0, N + 1}
+	for _, p := range pos {
+		deps = append(deps, p+1)
+	}
+	var ops []c36op
+	for _, i := range pos {
+		for _, d := range deps {
+			ops = append(ops, c36op{kind: 'P', s: i, prio: true, dep: d}, c36op{kind: 'P', s: i, prio: true, dep: d, excl: true})
+		}
+	}
+	ops = append(ops, c36op{kind: 'H', s: n})
+	for _, d := range append(deps, n+1) { // n+1 = the new stream itself
+		ops = append(ops, c36op{kind: 'H', s: n, prio: true, dep: d}, c36op{kind: 'H', s: n, prio: true, dep: d, excl: true})
+	}
+	return ops
+}
+
+type c36snap struct {
+	par    []*stream
+	status []byte
+}
+
+func (w *c36world) snap(sn *c36snap) {
+	sn.par = sn.par[:0]
+	for _, o := range w.obj {
+		sn.par = append(sn.par, o.parent)
+	}
+	sn.status = append(sn.status[:0], w.status...)
+}
+
+func (w *c36world) restore(sn *c36snap) {
+	for i, o := range w.obj {
+		o.parent = sn.par[i]
+		if w.status[i] != sn.status[i] {
+			if sn.status[i] == c36open {
+				w.streams[o.id] = o
+			} else if w.status[i] == c36open {
+				delete(w.streams, o.id)
+			}
+			w.status[i] = sn.status[i]
+		}
+	}
+}
+
+func (w *c36world) differs(sn *c36snap) bool {
+	for i, o := range w.obj {
+		if o.parent != sn.par[i] || w.status[i] != sn.status[i] {
+			return true
+		}
+	}
+	return false
+}
+
+func (w *c36world) mapOK() bool {
+	k := 0
+	for _, st := range w.status {
+		if st == c36open {
+			k++
+		}
+	}
+	return k == len(w.streams)
+}
+
+// hops from the dependency up to the re-prioritised stream in the current (pre-)state, -1 if the
+// stream is not an ancestor of the dependency.
+func (w *c36world) hops(o c36op) int {
+	if o.dep < 1 || o.dep > w.n || o.dep-1 == o.s {
+		return -1
+	}
+	p := w.obj[o.dep-1]
+	for k := 0; k <= w.n && p != nil; k++ {
+		if p == w.obj[o.s] {
+			return k
+		}
+		p = p.parent
+	}
+	return -1
+}
+
+type c36deepCtx struct {
+	shape string
+	x     bool
+	d, N  int
+	ops   []c36op
+}
+
+var c36wdDeep atomic.Value // *c36deepCtx
+
+func c36deepID(shape string, x bool, d, N int, ops []c36op) string {
+	return fmt.Sprintf("deep|%s|%v|%d|%s", shape, x, d, c36histStr(N, ops))
+}
+
+func (w *c36world) brief(ids ...int) string {
+	s := fmt.Sprintf("%d streams;", w.n-1)
+	for _, i := range ids {
+		if i < 0 || i >= w.n {
+			continue
+		}
+		p := "nil"
+		if w.obj[i].parent != nil {
+			p = strconv.Itoa(int(w.obj[i].parent.id))
+		}
+		s += fmt.Sprintf(" %d:%s->%s", c36id(i), []string{"idle", "open", "closed"}[w.status[i]], p)
+	}
+	return s
+}
+
+// c36deepBuild builds the tree with the real code, invariant after every step.
+func c36deepBuild(shape string, x bool, d int) (w *c36world, n int, sig string, at int) {
+	build, n := c36shape(shape, d, x)
+	w = c36newWorld(n + 1)
+	c36ctxHist(fmt.Sprintf("deep|%s|%v|%d", shape, x, d), n+1, build) // (a hang while building: history = the prefix)
+	for k, o := range build {
+		c36ctxOp(k)
+		if _, sg := w.step(o); sg != "" {
+			return w, n, sg, k
+		}
+	}
+	return w, n, "", -1
+}
+
+// c36deepSig adds the depth class to a signature: a break that needs the dependency to be at
+// least 8 hops below the stream cannot be seen by Parts A-C and is a different class of defect.
+func c36deepSig(sig string, hops int) string {
+	if hops >= 8 {
+		return sig + ":deep"
+	}
+	return sig
+}
+
+// c36deepRun executes ops on a freshly built tree (replay and confirmation of a violation).
+func c36deepRun(shape string, x bool, d int, ops []c36op) (sig, detail string, err error) {
+	w, _, sg, at := c36deepBuild(shape, x, d)
+	if sg != "" {
+		return sg + ":while-building", fmt.Sprintf("building %s(d=%d, exclusive=%v): after HEADERS #%d stream %d is its own ancestor", shape, d, x, at, c36id(w.cyc())), nil
+	}
+	c36wdDeep.Store(&c36deepCtx{shape, x, d, w.n, ops})
+	for k, o := range ops {
+		if !w.enabled(o) {
+			return "", "", fmt.Errorf("op %s not enabled", o.str(w.n))
+		}
+		atomic.StoreInt32(&c36wdMode, 3)
+		atomic.StoreUint64(&c36wdCode, uint64(k+1)<<32)
+		hops := w.hops(o)
+		before := w.brief(o.s, o.dep-1)
+		if _, sg := w.step(o); sg != "" {
+			i := w.cyc()
+			return c36deepSig(sg, hops), fmt.Sprintf("%s(d=%d, built with exclusive=%v), op %d %s (dependency %d hops below the stream) on [%s]: stream %d is its own ancestor afterwards [%s]", shape, d, x, k, o.str(w.n), hops, before, c36id(i), w.brief(o.s, o.dep-1, i)), nil
+		}
+		if !w.mapOK() {
+			return "", "", fmt.Errorf("streams map has %d entries after %s", len(w.streams), o.str(w.n))
+		}
+	}
+	return "", "", nil
+}
+
+func c36deepReport(r *vk.Run, t *testing.T, shape string, x bool, d, N int, ops []c36op, sig string) {
+	if c36reported[sig]++; c36reported[sig] > 3 {
+		r.Violation(sig, "", "")
+		return
+	}
+	id := c36deepID(shape, x, d, N, ops)
+	sg, detail, err := c36deepRun(shape, x, d, ops)
+	if err != nil || sg != sig {
+		r.Cap("harness-inconsistency")
+		t.Errorf("C36 harness: deep violation %s not reproduced by %s (got %q, %v)", sig, id, sg, err)
+		return
+	}
+	r.Violation(sig, id, detail)
+}
+
+func c36deepDepths(r *vk.Run) (depths []int, allPairsUpTo int) {
+	depths = []int{1, 2, 3, 4, 5, 7, 8, 9, 15, 16, 17, 31, 32, 33, 49, 50, 51, 63, 64, 65, 99, 100, 101, 102, 127, 128, 129, 149, 150, 151, 198, 199, 200, 201, 202, 255, 256, 257}
+	if r.Thorough() {
+		depths = nil
+		for d := 1; d <= 260; d++ {
+			depths = append(depths, d)
+		}
+		depths = append(depths, 299, 300, 301, 399, 400, 401, 499, 500, 501, 511, 512, 513, 999, 1000, 1001, 1023, 1024, 1025)
+		allPairsUpTo = 260
+	}
+	return
+}
+
+func c36deepPart(r *vk.Run, t *testing.T) {
+	depths, allPairsUpTo := c36deepDepths(r)
+	var st c36stats
+	var items, trees int64
+	idx := 0
+	var s0, s1 c36snap
+	for _, shape := range c36shapes {
+		for _, x := range []bool{false, true} {
+			for _, d := range depths {
+				if shape == "chain-closed-middle" && d < 3 {
+					continue
+				}
+				idx++
+				if !r.Mine(idx) {
+					continue
+				}
+				if r.Expired("deep trees") {
+					st.flush(r, "deep")
+					return
+				}
+				w, n, sig, _ := c36deepBuild(shape, x, d)
+				if sig != "" {
+					c36deepReport(r, t, shape, x, d, n+1, nil, sig+":while-building")
+					continue
+				}
+				if !w.mapOK() {
+					r.Cap("harness-inconsistency")
+					t.Errorf("C36 harness: %s d=%d: streams map inconsistent after building", shape, d)
+					continue
+				}
+				trees++
+				r.Traces(1)
+				N := w.n
+				ops := c36deepOps(n)
+				ctx := &c36deepCtx{shape: shape, x: x, d: d, N: N, ops: ops}
+				c36wdDeep.Store(ctx)
+				setctx := func(a, b int) {
+					c36wdDeep.Store(ctx)
+					atomic.StoreInt32(&c36wdMode, 4)
+					atomic.StoreUint64(&c36wdCode, uint64(a+1)<<32|uint64(b+1))
+				}
+				w.snap(&s0)
+				one := func(o c36op, base *c36snap, pre []c36op, a, b int) (ok bool) {
+					setctx(a, b)
+					hops := -1
+					if o.kind == 'P' {
+						hops = w.hops(o)
+					}
+					cls, sg := w.step(o)
+					items++
+					if sg != "" {
+						st.note(o, cls, true)
+						c36deepReport(r, t, shape, x, d, N, append(append([]c36op{}, pre...), o), c36deepSig(sg, hops))
+						return false
+					}
+					if !w.mapOK() {
+						r.Cap("harness-inconsistency")
+						t.Errorf("C36 harness: streams map inconsistent after %s", c36deepID(shape, x, d, N, append(pre, o)))
+					}
+					st.note(o, cls, w.differs(base))
+					return true
+				}
+				for a, o1 := range ops {
+					if one(o1, &s0, nil, a, -1) {
+						w.snap(&s1)
+						for b, o2 := range ops {
+							if !w.enabled(o2) {
+								continue
+							}
+							one(o2, &s1, []c36op{o1}, a, b)
+							w.restore(&s1)
+						}
+					}
+					w.restore(&s0)
+				}
+				if d <= allPairsUpTo { // thorough: every (i, j) of the tree
+					for i := 0; i < n; i++ {
+						for j := 0; j < n; j++ {
+							for _, ex := range []bool{false, true} {
+								o := c36op{kind: 'P', s: i, prio: true, dep: j + 1, excl: ex}
+								ctx.ops = append(ctx.ops[:len(ops)], o)
+								one(o, &s0, nil, len(ops), -1)
+								w.restore(&s0)
+							}
+						}
+					}
+					ctx.ops = ctx.ops[:len(ops)]
+				}
+				if d == 101 && shape == "chain" && !x {
+					o := c36op{kind: 'P', s: 0, prio: true, dep: n}
+					r.Sample(map[string]interface{}{"deep_example": c36deepID(shape, x, d, N, []c36op{o}), "class": c36className(o, w.classify(o)), "hops": w.hops(o)})
+				}
+			}
+		}
+	}
+	st.flush(r, "deep")
+	r.States(trees)
+	r.Add("sum_deep_trees_built", trees)
+	r.Set("deep_depths", fmt.Sprintf("%v (x 4 shapes x built plain/exclusive); all (i,j) pairs for d<=%d", depths, allPairsUpTo))
+}
+
+// Part D through the frame path: chain and star built by real HEADERS frames, one real PRIORITY
+// frame (i, j in {top, middle, bottom}), compared with the direct result.
+func c36deepFrames(r *vk.Run, t *testing.T) {
+	depths, _ := c36deepDepths(r)
+	if r.Thorough() {
+		depths = []int{1, 2, 3, 5, 8, 16, 17, 31, 32, 33, 50, 63, 64, 65, 99, 100, 101, 102, 127, 128, 129, 150, 198, 199, 200}
+	}
+	idx := 0
+	var evals, agree int64
+	for _, shape := range []string{"chain", "star"} {
+		for _, x := range []bool{false, true} {
+			for _, d := range depths {
+				build, n := c36shape(shape, d, x)
+				if n > 200 { // a default server refuses the 201st concurrent stream
+					continue
+				}
+				idx++
+				if !r.Mine(idx) || r.Expired("deep frames") {
+					continue
+				}
+				tri := []int{0, n / 2, n - 1}
+				for _, i := range tri {
+					for _, j := range tri {
+						for _, ex := range []bool{false, true} {
+							o := c36op{kind: 'P', s: i, prio: true, dep: j + 1, excl: ex}
+							id := fmt.Sprintf("deepframes|%s|%v|%d|%s", shape, x, d, o.str(n+1))
+							evals++
+							sig, detail, same, err := c36deepFramesRun(shape, x, d, build, n, o)
+							switch {
+							case err != nil:
+								r.Cap("harness-inconsistency")
+								t.Errorf("C36 harness: %s: %v", id, err)
+							case sig != "":
+								r.Outcome("frames:cyclic")
+								r.Violation(sig, id, detail)
+							case !same:
+								r.Cap("harness-inconsistency")
+								t.Errorf("C36 harness: %s: frame path and direct path give different trees", id)
+							default:
+								agree++
+							}
+						}
+					}
+				}
+			}
+		}
+	}
+	r.Evals(evals)
+	r.Traces(agree)
+	r.OutcomeN("frames:deep-tree-accepted-and-agrees-with-direct", agree)
+	r.Add("sum_deep_frames_histories", evals)
+}
+
+func c36deepFramesRun(shape string, x bool, d int, build []c36op, n int, o c36op) (sig, detail string, same bool, err error) {
+	fw := c36newFrameWorld(n + 1)
+	defer fw.done()
+	w := c36newWorld(n + 1) // direct twin (also gives the pre-state class)
+	hist := append(append([]c36op{}, build...), o)
+	c36ctxHist(fmt.Sprintf("deepframes|%s|%v|%d", shape, x, d), n+1, hist)
+	for k, op := range hist {
+		cls := w.classify(op)
+		hops := -1
+		if k == len(hist)-1 {
+			hops = w.hops(op)
+		}
+		c36ctxOp(k)
+		c36enter(cls)
+		e := fw.send(op)
+		c36leave()
+		if e != nil {
+			return "", "", false, fmt.Errorf("frame %d (%s) rejected: %v", k, op.str(n+1), e)
+		}
+		if i := fw.cyclic(); i >= 0 {
+			sg := c36deepSig("cycle:"+c36className(op, cls), hops)
+			if k < len(build) {
+				sg += ":while-building"
+			}
+			return sg, fmt.Sprintf("frame path, %s(d=%d, exclusive=%v): after frame %d (%s, dependency %d hops below) stream %d is its own ancestor", shape, d, x, k, op.str(n+1), hops, c36id(i)), false, nil
+		}
+		if _, sg := w.step(op); sg != "" {
+			return "", "", false, fmt.Errorf("direct twin cyclic (%s) where the frame path is not, after %s", sg, op.str(n+1))
+		}
+	}
+	for i := 0; i <= n; i++ {
+		st := fw.all[i]
+		if (st == nil) != (w.status[i] == c36idle) {
+			return "", "", false, nil
+		}
+		if st == nil {
+			continue
+		}
+		var a, b uint32
+		if st.parent != nil {
+			a = st.parent.id
+		}
+		if w.obj[i].parent != nil {
+			b = w.obj[i].parent.id
+		}
+		if a != b || (fw.sc.streams[st.id] == st) != (w.status[i] == c36open) {
+			return "", "", false, nil
+		}
+	}
+	return "", "", true, nil
+}
+
 // ---- entry point --------------------------------------------------------------------------------
 
 func TestVerifC36(t *testing.T) {
@@ -1109,6 +1583,31 @@ func TestVerifC36(t *testing.T) {
 	go c36watchdog(r, t)
 
 	if r.Replaying() {
+		if strings.HasPrefix(r.ReplayCase(), "deep") {
+			f := strings.SplitN(r.ReplayCase(), "|", 5)
+			if len(f) != 5 || !r.Case(r.ReplayCase()) {
+				return
+			}
+			d, _ := strconv.Atoi(f[3])
+			x := f[2] == "true"
+			build, n := c36shape(f[1], d, x)
+			ops := c36parseHist(n+1, f[4])
+			var sig, detail string
+			var err error
+			if f[0] == "deepframes" && len(ops) == 1 {
+				sig, detail, _, err = c36deepFramesRun(f[1], x, d, build, n, ops[0])
+			} else {
+				sig, detail, err = c36deepRun(f[1], x, d, ops)
+			}
+			if err != nil {
+				t.Errorf("C36 replay: %v", err)
+			}
+			if sig != "" {
+				r.Violation(sig, r.ReplayCase(), detail)
+			}
+			t.Logf("replay %s: sig=%q %s", r.ReplayCase(), sig, detail)
+			return
+		}
 		parts := strings.SplitN(r.ReplayCase(), "|", 3)
 		if len(parts) != 3 || !r.Case(r.ReplayCase()) {
 			return
@@ -1144,6 +1643,9 @@ func TestVerifC36(t *testing.T) {
 	}
 	// Part C: frame path.
 	c36framesPart(r, t, nC)
+	// Part D: deep and wide trees (direct seams, then real frames).
+	c36deepPart(r, t)
+	c36deepFrames(r, t)
 	// Part B: sharded sweep of the whole acyclic domain of the next size(s). Together with the
 	// acyclic-successor check this is also a closure argument: the domain contains the empty
 	// connection, every vector in it is reached by a real history, every successor is in it.
